@@ -429,6 +429,10 @@ def dispatch(ctx: Any) -> List[Ob]:
         if lab in ('SERVICE', 'TEXT'):
             oc3, _ = traces(ctx, g, {p_strategy: val, '.suppresses()': True}, eff3)
             obs.append(ob(R, g, f'strategy {lab} with a sufficient known answer', 'a record the querier already knows (more than half TTL) is not offered', all('STORE' not in t for t in oc3)))
+    # ... and a valid query gets as far as these strategies whenever anything is registered
+    from .c16 import dispatch_obligations
+
+    obs.extend(dispatch_obligations(ctx, R, 'query'))
     return obs
 
 
